@@ -93,7 +93,7 @@ class Ob:
 
     def __init__(self, name, prop, body, *, fn="", kind="lemma", contract=None, solver="cadical",
                  stubs=("sse",), tier="quick", unwind=None, expect="pass", desc="", stub_verified=(),
-                 timeout=None, panic=False, cls="lane", bounded=None, clauses=None, split=None, plain=False):
+                 timeout=None, panic=False, cls="lane", bounded=None, clauses=None, split=None, plain=False, pin=False):
         self.name, self.prop, self.body, self.fn, self.kind = name, prop, body, fn, kind
         self.contract, self.solver, self.stubs, self.tier = contract, solver, list(stubs), tier
         self.unwind, self.expect, self.desc = unwind, expect, desc
@@ -102,6 +102,7 @@ class Ob:
         self.clauses = clauses      # number of clauses aggregated in the body (for counting)
         self.split = split          # name of the stage-2 harness with one assertion per clause
         self.plain = plain          # True: verified against the UNWOVEN copy (no contract attributes)
+        self.pin = pin              # True: stays in the quick tier even if its recorded cost exceeds the deferral threshold
         assert re.match(r"^[a-z0-9_]+$", name), name
 
 
@@ -608,7 +609,7 @@ class Session:
                 continue
             if isinstance(c, (int, float)):
                 o.cost = max(1.0, c)
-                if c > 150 and o.tier == "quick" and o.expect == "pass":
+                if c > 150 and o.tier == "quick" and o.expect == "pass" and not getattr(o, "pin", False):
                     o.tier = "thorough"
                     if not o.name.endswith("__split"):
                         self.deferred.append(o.name)
@@ -875,6 +876,9 @@ class Session:
             r2["checks"] += [{"id": "stage1", "status": "FAILURE", "desc": f["desc"], "loc": "%s:%d in %s" % (f["file"], f["line"], f["fn"])} for f in r["failed_checks"]]
         failed = [c for c in r2["checks"] if c["status"] == "FAILURE"]
         rec["failed_clauses"] = [c["desc"] for c in failed][:20]
+        if o.panic:
+            # always-panics obligation: what failed is that the point after the call is reachable
+            rec["failed_clauses"] = ["always-panics clause: for some input of the violating class the call RETURNS normally (no panic)"] + rec["failed_clauses"][:3]
         rec["failed_locs"] = [c["loc"] for c in failed][:20]
         # replay
         reps = []
